@@ -112,8 +112,10 @@ def signal_enumeration(world, op, work, budget, r, evaluate, sigs=("INT", "TERM"
             inv = sw.world.run_cond(sw.op(dict(op, signal={"sig": sig, "cp": k})))
             snap = sim.snapshot(sw.dst / "proj")
             viol = evaluate(k, sig, inv, snap, sw)
+            sent = [e for e in inv.trace if e[0] == "sigsent"]
             records.append({"k": k, "sig": sig, "where": inv.sig_where, "violations": viol,
-                            "code": inv.code})
+                            "code": inv.code, "fired": bool(sent),
+                            "inflight": len(sent[0][4]) if sent else 0, "killed": False})
         finally:
             sw.close()
     return records, total, exhaustive
